@@ -5,6 +5,8 @@ import (
 	"fmt"
 	"io"
 	"os"
+	"path/filepath"
+	"sync"
 
 	"github.com/go-git/go-billy/v5"
 	"github.com/go-git/go-billy/v5/util"
@@ -16,6 +18,7 @@ type PersistedClock struct {
 	*MemClock
 	root     billy.Filesystem
 	filePath string
+	writeMu  sync.Mutex
 }
 
 // NewPersistedClock create a new persisted Lamport clock
@@ -105,6 +108,19 @@ func (pc *PersistedClock) read() error {
 }
 
 func (pc *PersistedClock) Write() error {
-	data := []byte(fmt.Sprintf("%d", pc.counter))
-	return util.WriteFile(pc.root, pc.filePath, data, 0644)
+	pc.writeMu.Lock()
+	defer pc.writeMu.Unlock()
+
+	data := []byte(fmt.Sprintf("%d", pc.Time()))
+
+	// Write aside then rename, so that an interrupted write can't leave an empty or truncated
+	// clock behind. The temporary file is kept out of the clock's directory, which is listed
+	// to discover the existing clocks.
+	dir := filepath.Dir(pc.filePath)
+	tmpPath := filepath.Join(filepath.Dir(dir), "."+filepath.Base(dir)+"-"+filepath.Base(pc.filePath)+".tmp")
+	err := util.WriteFile(pc.root, tmpPath, data, 0644)
+	if err != nil {
+		return err
+	}
+	return pc.root.Rename(tmpPath, pc.filePath)
 }
